@@ -173,30 +173,34 @@ def vgXnTerms (c lp lm : Rat) (n : Nat) (a b : ExtRat) : Option Terms :=
 
 /-! ### HEM closed forms (hem.py:76-166); `lam` = intensity -/
 
-/-- one-sided HEM forms; `k` = 0, 1, 2 is the power of x.  Negative side (`b ≤ 0`), as coded. -/
+/-- one term `(c, e)` of the negative-side HEM forms at the end point `u` (`w` = λ(1−p)); `k` = power of x -/
+def hemNegTerm (k : Nat) (w eta2 u : Rat) : Rat × Rat :=
+  match k with
+  | 0 => (w, eta2 * u)                                                  -- hem.py:87
+  | 1 => (w * (u - 1 / eta2), eta2 * u)                                 -- hem.py:105-113
+  | _ => (w * ((u * eta2) * (u * eta2 - 2) + 2) / eta2 ^ 2, u * eta2)   -- hem.py:140-151
+
+/-- one term of the positive-side HEM forms (`w` = λp) -/
+def hemPosTerm (k : Nat) (w eta1 u : Rat) : Rat × Rat :=
+  match k with
+  | 0 => (w, -eta1 * u)                                                 -- hem.py:90
+  | 1 => (w * (u + 1 / eta1), -eta1 * u)                                -- hem.py:117-126
+  | _ => (w * ((u * eta1) * (u * eta1 + 2) + 2) / eta1 ^ 2, -(u * eta1))  -- hem.py:153-164
+
+/-- negative side (`b ≤ 0`), as coded: value at b minus value at a; `a = -inf` contributes nothing -/
 def hemNeg (k : Nat) (lam p eta2 : Rat) (a b : ExtRat) : Option Terms :=
   let w := lam * (1 - p)
-  let term (u : Rat) : Rat × Rat :=
-    match k with
-    | 0 => (w, eta2 * u)                                             -- hem.py:87
-    | 1 => (w * (u - 1 / eta2), eta2 * u)                            -- hem.py:105-113
-    | _ => (w * ((u * eta2) * (u * eta2 - 2) + 2) / eta2 ^ 2, u * eta2)  -- hem.py:140-151
   match a, b with
-  | .negInf, .fin b => some [term b]
-  | .fin a, .fin b => some [term b, negTerm (term a)]
+  | .negInf, .fin b => some [hemNegTerm k w eta2 b]
+  | .fin a, .fin b => some [hemNegTerm k w eta2 b, negTerm (hemNegTerm k w eta2 a)]
   | _, _ => none
 
-/-- positive side (`a ≥ 0`), as coded -/
+/-- positive side (`a ≥ 0`), as coded: value at a minus value at b; `b = inf` contributes nothing -/
 def hemPos (k : Nat) (lam p eta1 : Rat) (a b : ExtRat) : Option Terms :=
   let w := lam * p
-  let term (u : Rat) : Rat × Rat :=
-    match k with
-    | 0 => (w, -eta1 * u)                                            -- hem.py:90
-    | 1 => (w * (u + 1 / eta1), -eta1 * u)                           -- hem.py:117-126
-    | _ => (w * ((u * eta1) * (u * eta1 + 2) + 2) / eta1 ^ 2, -(u * eta1))  -- hem.py:153-164
   match a, b with
-  | .fin a, .posInf => some [term a]
-  | .fin a, .fin b => some [term a, negTerm (term b)]
+  | .fin a, .posInf => some [hemPosTerm k w eta1 a]
+  | .fin a, .fin b => some [hemPosTerm k w eta1 a, negTerm (hemPosTerm k w eta1 b)]
   | _, _ => none
 
 /-- hem.py:76-166: `a > b` raises; `b <= 0` negative form; `a >= 0` positive form; else split at 0 -/
